@@ -263,3 +263,26 @@ PROPS["C17"] = {
         Leg("history", "c17", "^TestHistory$", checks=(4000, 30000), shards=(2, 16), tests=["history"]),
     ],
 }
+
+PROPS["C18"] = {
+    "title": "The recent-message queue always holds the last N messages in arrival order",
+    "level": "exploration",
+    "technique": "bounded-exhaustive enumeration of all Add/Snapshot sequences (length <= 14, capacity 1..8) + model-based property testing (rapid) + generated concurrent histories checked for linearizability (porcupine) under -race and injected yields",
+    "level_text": ("Sequential part: every operation sequence of length <= 14 for capacities 1..8 is enumerated against a model slice (complete to that bound), plus random "
+                   "long runs (up to 5000 additions, capacities 1..8 and 20). Concurrent part: generated histories with 1-4 adders and 1-4 snapshot readers, each call "
+                   "stamped with invocation/response times, must be linearizable w.r.t. the sequential model and every snapshot must be a duplicate-free, per-adder "
+                   "contiguous run of at most N messages; run plain, under the race detector and with yield points injected around Lock/RLock. Interleavings are sampled."),
+    "rule": ("exhaustive: all sequences over {Add, Snapshot}; long: random op lists with add bursts of 1, 2, N-1, N, N+1, 3N, 100, 700; concurrent: (capacity, adds per adder, "
+             "snapshots per reader, GOMAXPROCS, prefill, yield seed/mode). Non-trivial = an eviction happened and a snapshot follows (sequential) / more additions than "
+             "the capacity (concurrent); distinct = distinct op sequence / distinct (case, observed history)."),
+    "assumptions": ["porcupine v1.3.0 linearizability checker", "Go race detector", "Go toolchain, rapid v1.3.0"],
+    "min_evals": {"quick": 250000, "thorough": 300000},
+    "legs": [
+        Leg("exhaustive", "c18", "^TestExhaustive$", engine="enumerate", rapid=False, shards=(8, 8), tests=["exhaustive"]),
+        Leg("long", "c18", "^TestLong$", checks=(1500, 10000), shards=(1, 8), tests=["long"]),
+        Leg("concurrent", "c18", "^TestConcurrent$", engine="sched", checks=(400, 3000), shards=(2, 8), tests=["concurrent"]),
+        Leg("concurrent-race", "c18", "^TestConcurrent$", engine="sched", race=True, checks=(250, 2000), shards=(2, 8), tests=["concurrent"]),
+        Leg("concurrent-yield-race", "c18", "^TestConcurrent$", engine="sched", race=True, instrument=["apps/proxy/circular_queue/circular_queue.go"],
+            checks=(250, 2000), shards=(2, 8), tests=["concurrent"]),
+    ],
+}
